@@ -20,7 +20,8 @@ CASE_WALL_LIMIT = {'quick': 60, 'thorough': 180}
 
 def plan(tier, seed):
     from . import c08_script
-    return [('hostile-legal', 1500 if tier == 'quick' else 50000)] + c08_script.plan(tier, seed)
+    return [('hostile-legal', 1500 if tier == 'quick' else 50000), ('lease', 300 if tier == 'quick' else 10000)] \
+        + c08_script.plan(tier, seed)
 
 
 def gen_case(rng, tier):
@@ -71,6 +72,8 @@ def judge(world):
 
 def run_case(gen, idx, rng, tier):
     assert_repo()
+    if gen == 'lease':
+        return run_lease(idx, rng, tier)
     if gen != 'hostile-legal':
         from . import c08_script
         return c08_script.run_case(gen, idx, rng, tier)
@@ -102,6 +105,41 @@ def run_case(gen, idx, rng, tier):
             'deciding': st, 'counts': ev, 'witnesses': ws, 'sample': desc}
 
 
+def run_lease(idx, rng, tier):
+    """A lease-honouring client (requests retained until a LEASE arrives) whose application grants credit or
+    cancels right after subscribing; the automaton judges the client's sends."""
+    from .. import vloop
+    from ..runner import short_hash
+    from ..protocol_model import judge_endpoint
+    from ..pair import trace_excerpt
+    from . import c14
+    desc = c14.gen_requester(rng)
+    for ev in desc['timeline']:
+        if ev['kind'] == 'req' and ev['model'] in ('stream', 'channel'):
+            ev['post'] = rng.choice([None, 'request', 'cancel'])
+    world, t0 = vloop.run(c14._requester(rng, desc))
+    v, n, a = judge_endpoint(world.events, 'c', 'client')
+    st = {'sends_judged': n, 'cancel_frames_seen': 0, 'error_frames_seen': 0,
+          'streams_terminated': sum(1 for s in a.streams.values() if s.dead)}
+    for e in world.events:
+        if e['kind'] == 'queue' and e['f'].get('type') == 'CANCEL':
+            st['cancel_frames_seen'] += 1
+    seen = set()
+    ws = []
+    for w in v:
+        k = (w['clause'], classify(w))
+        if k not in seen:
+            seen.add(k)
+            w['detail']['case'] = desc
+            w['detail']['lease_honouring_client'] = True
+            at = w['detail'].get('at_event', 0)
+            w['detail']['trace'] = trace_excerpt(type('W', (), {'events': world.events[max(0, at - 30):at + 3]})(), 40)
+            ws.append(w)
+    nt = any(ev.get('post') for ev in desc['timeline'])
+    return {'evals': 1, 'nt_keys': [short_hash(desc)] if nt else [], 'sigs': [world.signature()], 'deciding': st,
+            'witnesses': ws, 'counts': {'lease_runs': 1}, 'sample': desc}
+
+
 def classify(w):
     d = w.get('detail', {})
     if w.get('clause') == 'frame-after-stream-terminated' and d.get('stream_kind') == 'channel' \
@@ -109,4 +147,8 @@ def classify(w):
             and str(d.get('frame', '')).split('(')[0] in ('PAYLOAD', 'ERROR', 'REQUEST_N', 'CANCEL'):
         # the library closes only one direction of a channel on ERROR / requester CANCEL
         return 'channel-direction-survives-termination'
+    if w.get('clause') == 'stream-does-not-begin-with-request' and d.get('lease_honouring_client') \
+            and str(d.get('frame', '')).split('(')[0] in ('REQUEST_N', 'CANCEL'):
+        # frames of a stream whose request is still retained in the lease queue are not held back
+        return 'lease-queued-request-overtaken'
     return None
